@@ -470,6 +470,239 @@ def gen_tables():
     return "\n".join(out)
 
 
+# --------------------------------------------------------------------------------------------- export tables (C14, C15)
+
+def _pyval(v):
+    """(kind, payload) encoding of a constructor default / field value for Gen.ExportTables"""
+    import enum
+    if v is None:
+        return "none", ""
+    if isinstance(v, bool):
+        return "bool", "true" if v else "false"
+    if isinstance(v, int):
+        return "int", str(v)
+    if isinstance(v, float):
+        if v != v:
+            return "float", "nan"
+        if v in (math.inf, -math.inf):
+            return "float", "inf" if v > 0 else "-inf"
+        n, d = v.as_integer_ratio()
+        return "float", f"{n}/{d}" if d != 1 else str(n)
+    if isinstance(v, str):
+        return "str", v
+    if isinstance(v, enum.Enum):
+        # what the enum's own __repr__ prints between the quotes (comparator value / type name)
+        return "enum", repr(v).strip("'")
+    if isinstance(v, (list, tuple)):
+        return ("list", "") if len(v) == 0 else ("other", type(v).__name__)
+    if isinstance(v, dict):
+        return ("dict", "") if len(v) == 0 else ("other", type(v).__name__)
+    if isinstance(v, np.ndarray):
+        return ("array", "") if v.size == 0 else ("other", "ndarray")
+    return "obj", type(v).__name__
+
+
+def _pydefault(kind, payload):
+    """Lean term of type Gen.ExportTables.PyDefault"""
+    if kind == "none":
+        return ".none"
+    if kind == "bool":
+        return f".bool {payload}"
+    if kind == "int":
+        return f".int ({payload})"
+    if kind == "float":
+        if payload == "nan":
+            return ".nan"
+        if payload in ("inf", "-inf"):
+            return f".inf {'true' if payload.startswith('-') else 'false'}"
+        n, _, d = payload.partition("/")
+        return f".float ({n}) {d or 1}"
+    if kind == "str":
+        return f".str {lean_str(payload)}"
+    if kind == "enum":
+        return f".enum {lean_str(payload)}"
+    if kind in ("list", "dict", "array"):
+        return {"list": ".emptyList", "dict": ".emptyDict", "array": ".emptyArray"}[kind]
+    if kind in ("obj", "other"):
+        return f".obj {lean_str(payload)}"
+    if kind == "varargs":
+        return ".varargs"
+    return ".absent"
+
+
+def _nondefault(cls, pname, default):
+    """a value different from the default for probing which fields a __repr__ keeps"""
+    name_map = {
+        "terms": lambda: [fl.Triangle("t", 0.0, 0.5, 1.0)],
+        "rules": lambda: [fl.Rule.create("if a is b then c is d")] if cls.__name__ == "RuleBlock" else 2,
+        "input_variables": lambda: [fl.InputVariable("a")],
+        "output_variables": lambda: [fl.OutputVariable("c")],
+        "rule_blocks": lambda: [fl.RuleBlock("r")],
+        "coefficients": lambda: [1.0, 2.0],
+        "values": lambda: [0.0, 1.0, 1.0, 0.0],
+        "variables": lambda: {"k": 1.0},
+        "aggregation": lambda: fl.Maximum(),
+        "defuzzifier": lambda: fl.Centroid(),
+        "conjunction": lambda: fl.Minimum(),
+        "disjunction": lambda: fl.Maximum(),
+        "implication": lambda: fl.Minimum(),
+        "activation": lambda: fl.General(),
+        "type": lambda: "Tsukamoto",
+        "comparator": lambda: "<",
+        "resolution": lambda: 1001,
+        "formula": lambda: "x",
+    }
+    if pname in name_map:
+        return True, name_map[pname]()
+    if isinstance(default, bool):
+        return True, not default
+    if isinstance(default, int):
+        return True, default + 1
+    if isinstance(default, float):
+        return True, 0.5
+    if isinstance(default, str):
+        return True, "x"
+    return False, None
+
+
+def export_classes():
+    fm = fl.settings.factory_manager
+    classes = []
+    for fac in (fm.tnorm, fm.snorm, fm.hedge, fm.term, fm.defuzzifier, fm.activation):
+        classes += [fac.constructors[k] for k in sorted(fac.constructors) if k]
+    classes += [fl.Engine, fl.InputVariable, fl.OutputVariable, fl.RuleBlock, fl.Variable]
+    seen, out = set(), []
+    for c in classes:
+        if c.__name__ not in seen:
+            seen.add(c.__name__)
+            out.append(c)
+    return out
+
+
+def gen_export_tables():
+    """constructor parameters with their effective defaults, and what every `__repr__` passes to
+    `construction_arguments` (probed on a default and on an all-non-default instance)"""
+    from fuzzylite.library import Representation
+
+    out = ["/-! GENERATED by /verif/fv/tracer.py by introspection of the live `fuzzylite` – do not edit. -/", "",
+           "namespace Gen.ExportTables", "",
+           "/-- what `Class()` stores under the name of a constructor parameter -/",
+           "inductive PyDefault where",
+           "  | none | bool (b : Bool) | int (z : Int) | float (num : Int) (den : Nat) | nan | inf (neg : Bool)",
+           "  | str (s : String) | enum (s : String) | emptyList | emptyDict | emptyArray | obj (cls : String)",
+           "  | absent      -- the constructor does not store the parameter under its name",
+           "  | varargs",
+           "deriving DecidableEq, Repr", ""]
+    rec = []
+    orig = Representation.construction_arguments
+
+    def spy(self, x, /, fields=None, *, positional=False, cast_as=None):
+        rec.append((type(x).__name__, sorted((fields if fields is not None else vars(x)) or {}), bool(positional)))
+        return orig(self, x, fields, positional=positional, cast_as=cast_as)
+
+    prm_rows, probe_rows = [], []
+    problems, unprobed = [], []
+    for c in export_classes():
+        own_init = c.__init__ is not object.__init__
+        params = [p for p in inspect.signature(c.__init__).parameters.values() if p.name != "self"] if own_init else []
+        try:
+            d0 = c()
+        except Exception as ex:  # noqa: BLE001
+            problems.append(f"{c.__name__}(): {type(ex).__name__}: {ex}")
+            continue
+        rows = []
+        kwargs = {}
+        for p in params:
+            has_default = p.default is not inspect.Parameter.empty
+            if p.kind in (p.VAR_POSITIONAL, p.VAR_KEYWORD):
+                rows.append((p.name, has_default, "varargs", ""))
+                continue
+            if hasattr(d0, p.name) and not callable(getattr(d0, p.name)):
+                kind, payload = _pyval(getattr(d0, p.name))
+            else:
+                kind, payload = "absent", ""
+            rows.append((p.name, has_default, kind, payload))
+            if kind != "absent":
+                ok, v = _nondefault(c, p.name, getattr(d0, p.name))
+                if ok:
+                    kwargs[p.name] = v
+                else:
+                    unprobed.append(f"{c.__name__}.{p.name}")
+        prm_rows.append(f"({lean_str(c.__name__)}, [" + ", ".join(
+            f"({lean_str(n)}, {'true' if hd else 'false'}, {_pydefault(k, pl)})" for n, hd, k, pl in rows) + "])")
+        # probe the __repr__ override
+        try:
+            d1 = c(**kwargs)
+            probes = []
+            Representation.construction_arguments = spy
+            try:
+                for inst in (d0, d1):
+                    del rec[:]
+                    repr(inst)
+                    # the outermost call (the object's own) is recorded first
+                    probes.append(([r for r in rec if r[0] == c.__name__][0], sorted(vars(inst))))
+            finally:
+                Representation.construction_arguments = orig
+        except Exception as ex:  # noqa: BLE001
+            problems.append(f"{c.__name__} repr probe: {type(ex).__name__}: {ex}")
+            continue
+        (_, f0, pos0), v0 = probes[0]
+        (_, f1, pos1), v1 = probes[1]
+        if pos0 != pos1:
+            problems.append(f"{c.__name__}: positional flag differs between probes")
+        always = sorted(k for k in v1 if k not in f1 and k not in f0)
+        added = sorted(k for k in f1 if k not in v1)
+        cond = []
+        for k in f1:
+            if k not in f0:
+                cond.append((k, "eqDefault"))
+        for k in f0:
+            if k not in f1:
+                cond.append((k, "neDefault"))
+        # a height within the tolerance of 1 but different from it
+        if "height" in [p.name for p in params] and "height" in f1:
+            try:
+                kw2 = dict(kwargs)
+                kw2["height"] = 1.0 + fl.settings.atol / 2
+                d2 = c(**kw2)
+                Representation.construction_arguments = spy
+                try:
+                    del rec[:]
+                    repr(d2)
+                    f2 = [r for r in rec if r[0] == c.__name__][0][1]
+                finally:
+                    Representation.construction_arguments = orig
+                if "height" not in f2:
+                    cond = [(k, "close1" if k == "height" else kind) for k, kind in cond]
+            except Exception as ex:  # noqa: BLE001
+                problems.append(f"{c.__name__} height probe: {type(ex).__name__}: {ex}")
+        probe_rows.append(f"({lean_str(c.__name__)}, {'true' if pos1 else 'false'}, ["
+                          + ", ".join(lean_str(k) for k in always) + "], ["
+                          + ", ".join(f"({lean_str(k)}, {lean_str(kind)})" for k, kind in sorted(cond)) + "], ["
+                          + ", ".join(lean_str(k) for k in added) + "])")
+    out.append("/-- (class, [(parameter, has a default, kind of the value `Class()` stores under that name, payload)]);\n"
+               "    kind `absent` = the constructor does not store the parameter under its name -/")
+    out.append("def ctorParams : List (String × List (String × Bool × PyDefault)) := [\n  "
+               + ",\n  ".join(prm_rows) + "]")
+    out.append("/-- (class, positional flag passed by `__repr__`, fields of `vars(x)` never passed, conditionally dropped\n"
+               "    fields with the probed condition, fields passed although not in `vars(x)`) -/")
+    out.append("def reprProbe : List (String × Bool × List String × List (String × String) × List String) := [\n  "
+               + ",\n  ".join(probe_rows) + "]")
+    mods = [(c.__name__, inspect.getmodule(c).__name__) for c in export_classes() + [fl.Rule]]
+    out.append("/-- (class, module that `Representation.package_of` reports for its instances) -/")
+    out.append("def classModule : List (String × String) := ["
+               + ", ".join(f"({lean_str(n)}, {lean_str(m)})" for n, m in mods) + "]")
+    out.append(f"/-- module of the `settings` object: prefix of `nan`, `inf`, `array` -/\ndef settingsModule : String := "
+               f"{lean_str(inspect.getmodule(fl.settings).__name__)}")
+    out.append(f"def defaultResolution : Nat := {int(fl.IntegralDefuzzifier.default_resolution)}")
+    out.append("def defuzzifierTypes : List String := [" + ", ".join(lean_str(t.name) for t in fl.WeightedDefuzzifier.Type) + "]")
+    out += ["", "end Gen.ExportTables", ""]
+    STATUS["tables"]["export_problems"] = problems
+    STATUS["tables"]["export_unprobed"] = unprobed
+    STATUS["functions"]["Tables.export"] = {"ok": not problems, "error": "; ".join(problems) or None}
+    return "\n".join(out)
+
+
 def write_if_changed(path, text):
     try:
         if open(path).read() == text:
@@ -488,7 +721,7 @@ def main(outdir, status_path=None):
     os.makedirs(outdir, exist_ok=True)
     changed = {}
     for fname, gen in (("NormGen.lean", gen_norms), ("HedgeGen.lean", gen_hedges), ("TermGen.lean", gen_terms),
-                       ("Tables.lean", gen_tables)):
+                       ("Tables.lean", gen_tables), ("ExportTables.lean", gen_export_tables)):
         try:
             text = gen()
         except Exception as ex:  # noqa: BLE001
